@@ -2209,7 +2209,11 @@ impl<'input, T: Input> Scanner<'input, T> {
 
         loop {
             self.input.lookahead(4);
-            if (self.leading_whitespace && self.input.next_is_document_indicator())
+            // A document indicator is only one at the start of a line: an indented `---` or `...`
+            // is ordinary plain scalar content (`k: a\n  --- b`).
+            if (self.leading_whitespace
+                && self.mark.col == 0
+                && self.input.next_is_document_indicator())
                 || self.input.peek() == '#'
             {
                 break;
